@@ -161,3 +161,61 @@ Lemma mp_forwards_part_error f streams m x x' e : m_cur m = Some x -> xl_poll x 
 Proof.
   intros Hc Hx. rewrite mp_poll_S, Hc, Hx. eexists. split; [reflexivity|]. cbn. auto.
 Qed.
+
+(* ---- C12: the end-of-stream flag ---- *)
+Lemma eos_hint_zero b : body_eos b = true -> body_hint b = 0.
+Proof.
+  destruct b as [[d|]|x|m]; cbn [body_eos body_hint]; intros H; try discriminate; try reflexivity;
+    now apply N.eqb_eq in H.
+Qed.
+
+(* a body that says it is at end-of-stream delivers no further byte, whatever is polled *)
+Theorem eos_no_more_data n streams b rs bf : body_eos b = true -> run n streams b = Ok (rs, bf) -> delivered rs = 0.
+Proof.
+  intros He HH. apply eos_hint_zero in He. destruct (run_never_more _ _ _ _ _ HH) as [H1 _]. lia.
+Qed.
+
+(* an ExactLen body over a stream that honours the contract from here on *)
+Definition honest_x (x : xl) : Prop := stream_total (x_s x) = x_rem x /\ existsb ev_is_err (x_s x) = false.
+
+Lemma honest_x_step x x' r : honest_x x -> xl_poll x = (x', r) -> honest_x x' /\ is_perr r = false.
+Proof.
+  intros [Ht He] Hx. unfold xl_poll in Hx. unfold honest_x. destruct (x_s x) as [|[|d|c] t] eqn:Es.
+  - cbn in Ht. destruct (N.eqb_spec (x_rem x) 0) as [Hz|Hz]; [|lia]. inversion Hx; subst. rewrite Es. cbn. auto.
+  - inversion Hx; subst. cbn [x_s x_rem stream_total existsb ev_is_err orb] in *. auto.
+  - cbn [stream_total existsb ev_is_err orb] in *. destruct (N.leb_spec (lenN d) (x_rem x)) as [Hle|Hgt]; [|lia].
+    inversion Hx; subst. cbn [x_s x_rem]. split; [split; [lia|exact He]|reflexivity].
+  - cbn in He. discriminate.
+Qed.
+
+(* C07 converse / C12: over an honest stream the body never reports an error *)
+Theorem honest_exact_no_error n : forall streams x rs bf, honest_x x ->
+  run n streams (BExact x) = Ok (rs, bf) -> existsb is_perr rs = false.
+Proof.
+  induction n as [|k IH]; intros streams x rs bf Hh HH; cbn [run] in HH.
+  - inversion HH; subst. reflexivity.
+  - cbn [body_poll] in HH. destruct (xl_poll x) as [x' r] eqn:Hx.
+    destruct (run k streams (BExact x')) as [[rs' bf']|t] eqn:Hr; [|discriminate]. inversion HH; subst.
+    destruct (honest_x_step _ _ _ Hh Hx) as [Hh' He]. cbn [existsb]. rewrite He. cbn [orb]. eapply IH; eauto.
+Qed.
+
+(* and it reaches its clean end once the stream is exhausted: within length + 1 polls *)
+Theorem honest_exact_ends streams x : honest_x x ->
+  exists rs bf, run (S (length (x_s x))) streams (BExact x) = Ok (rs, bf) /\ existsb is_pend rs = true.
+Proof.
+  remember (length (x_s x)) as n eqn:En. revert x En. induction n as [|k IH]; intros x En [Ht He].
+  - destruct (x_s x) as [|e t] eqn:Es; [|discriminate]. cbn in Ht.
+    cbn [run body_poll]. unfold xl_poll. rewrite Es. destruct (N.eqb_spec (x_rem x) 0) as [Hz|Hz]; [|lia].
+    eexists _, _. split; [reflexivity|reflexivity].
+  - change (run (S (S k)) streams (BExact x)) with
+      (match body_poll streams (BExact x) with
+       | Panic t => Panic t
+       | Ok (b', r) => match run (S k) streams b' with Panic t => Panic t | Ok (rs, bf) => Ok (r :: rs, bf) end
+       end).
+    cbn [body_poll]. destruct (xl_poll x) as [x' r] eqn:Hx.
+    destruct (honest_x_step x x' r (conj Ht He) Hx) as [Hh' _].
+    assert (El : k = length (x_s x')).
+    { rewrite (xl_poll_stream _ _ _ Hx). destruct (x_s x); cbn in *; [discriminate|lia]. }
+    destruct (IH x' El Hh') as (rs & bf & E & Hp). rewrite E. eexists _, _. split; [reflexivity|].
+    cbn [existsb]. rewrite Hp. apply orb_true_r.
+Qed.
